@@ -73,6 +73,8 @@ class Unit:
         self.trusted = []
         self.broadcast = []
         self.features = []
+        self.replaces_re = {}      # path -> [(regex, template)]   (rule R16)
+        self.replaces = {}         # path -> [(old, new)]   (rule R16)
         self.strip_prefixes = []   # crate names whose `name::module::` path prefixes are flattened (R11)
         self.renames = {}      # path -> {old identifier: new identifier}   (rule R15)
 
@@ -112,6 +114,18 @@ def parse_vspec(path):
                 u.name = rest
             elif d == "@uses":
                 u.props = rest.split()
+            elif d == "@replace":
+                # @replace <path> `old text` => `new text`   (every occurrence in items of that file; rule R16:
+                # invocation of an EXTERNAL crate's macro or an un-representable call -> named shim call)
+                m = re.match(r"(\S+)\s+`(.*)`\s*=>\s*`(.*)`\s*$", rest)
+                if not m:
+                    raise RsxError(f"{path}:{i+1}: bad @replace")
+                u.replaces.setdefault(m.group(1), []).append((m.group(2), m.group(3)))
+            elif d == "@replacere":
+                m = re.match(r"(\S+)\s+`(.*)`\s*=>\s*`(.*)`\s*$", rest)
+                if not m:
+                    raise RsxError(f"{path}:{i+1}: bad @replacere")
+                u.replaces_re.setdefault(m.group(1), []).append((m.group(2), m.group(3)))
             elif d == "@stripprefix":
                 u.strip_prefixes += rest.split()
             elif d == "@feature":
@@ -459,6 +473,14 @@ def build_item(u, spec, twin, gen):
         for t in itoks:
             if t.kind == "id" and t.text in ren:
                 red.add(t.s, t.e, ren[t.text], "R15")
+    for (old_t, new_t) in u.replaces.get(spec.path, []):
+        k = m.find(old_t) if old_t in m else -1
+        while k >= 0:
+            red.add(k, k + len(old_t), new_t, "R16")
+            k = m.find(old_t, k + len(old_t))
+    for (rx, tmpl) in u.replaces_re.get(spec.path, []):
+        for mm in re.finditer(rx, m):
+            red.add(mm.start(), mm.end(), mm.expand(tmpl), "R16")
     for pref in u.strip_prefixes:
         for mm in re.finditer(r"(?<![\w:])" + re.escape(pref) + r"::((?:[a-z_][a-z0-9_]*::)*)(?=[A-Za-z_])", m):
             red.add(mm.start(), mm.end(), "", "R11")
